@@ -138,7 +138,7 @@ func (s *qStore) takeProblems() []string {
 	return p
 }
 
-func coqNatList(xs []int) string {
+func qCoqNatList(xs []int) string {
 	items := make([]string, len(xs))
 	for i, x := range xs {
 		items[i] = coqNat(x)
